@@ -33,6 +33,9 @@ checks = {
  "C17": ("model_checking", "explicit-state BFS over invocations of the real goose binary (flags x pattern sets x -dir) from every reached out-directory state, against a reference model of exit status / files / rewrite; go list -tags goose as ground truth for source selection",
          "Every invocation sequence up to depth 2 from three seed out-dir states satisfies exit status, placement, nothing-written-on-error, partial output == translated declarations, no rewrite of unchanged files, and build-tag/pattern/-dir source selection.",
          "content judged against the binary's own solo translation; load-failure stray file not judged; no permission-based states (root)", "2 C17"),
+ "C01": ("exploration", "bounded-exhaustive program enumeration (every statement position x every statement/expression form of a grammar of the supported subset) with differential execution: native Go vs a GooseLang reference interpreter run on the real goose's output, on boundary input vectors",
+         "Every program of the grammar (quick: 11 positions, thorough: 20 positions; ~320 forms) is accepted by goose and the emitted GooseLang, interpreted, returns exactly Go's results (whole environment observed, aliasing included) on 28 boundary input vectors, without getting stuck.",
+         "GooseLang semantics = reference interpreter in mc/gl, gated by the repository's semantics corpus (86/86 test* functions evaluate to #true); program depth and input domains bounded", "2 C01"),
 }
 todo = {}
 man = {
@@ -43,6 +46,8 @@ man = {
   {"name": "csched", "path": "mc/csched", "serves_properties": ["C03","C06","C10","C13","C14","C16"], "kind_free_text": "cooperative controlled scheduler + deviation-bounded stateless explorer"},
   {"name": "simunix", "path": "mc/simunix", "serves_properties": ["C09","C10","C11","C12","C13","C14"], "kind_free_text": "simulated kernel (faults, crash images, real-kernel trace replay)"},
   {"name": "bfs", "path": "mc/bfs", "serves_properties": ["C09","C11","C12","C17"], "kind_free_text": "explicit-state BFS over real objects by history replay"},
+  {"name": "gl", "path": "mc/gl", "serves_properties": ["C01","C02","C03","C04","C05"], "kind_free_text": "Coq-notation lexer/parser and GooseLang reference interpreter"},
+  {"name": "progenum", "path": "mc/progenum", "serves_properties": ["C01","C02","C05","C07"], "kind_free_text": "bounded-exhaustive Go program enumerator (positions x forms)"},
   {"name": "instr", "path": "mc/instr", "serves_properties": ["C06","C10","C13","C14","C16"], "kind_free_text": "source rewriter producing go build overlays"},
  ],
  "checks": [], "not_applicable": [],
